@@ -1,5 +1,6 @@
 """C15 — combinatorial iterators (rlib/iter): sub/supermasks, next_permutation / iter_permutations, grid neighbours."""
 import itertools
+import math
 
 ID = "C15"
 CRATE = "c15"
@@ -13,6 +14,19 @@ EXPLAIN = "explain"
 AXIOM_ALLOW = []
 SHARD = 1200
 THEOREMS = [
+    ("c15_submask_succ", "forall w x s : N, (s <> 0 -> s < 2 ^ w -> N.land s x = s -> exists n, next_submask w x s = Some (s, n) /\\ "
+                         "N.land n x = n /\\ n < s /\\ forall u, N.land u x = u -> u < s -> u <= n)%N"),
+    ("c15_supermask_succ", "forall w x s : N, (x < 2 ^ w -> s < 2 ^ w -> s <> 2 ^ w - 1 -> N.land s x = x -> exists n, "
+                           "next_supermask w x s = Some (s, n) /\\ N.land n x = x /\\ s < n /\\ n < 2 ^ w /\\ "
+                           "forall u, N.land u x = x -> s < u -> n <= u)%N"),
+    ("c15_mask_stop", "forall w x : N, next_submask w x 0 = None /\\ next_supermask w x (2 ^ w - 1) = None"),
+    ("c15_submasks_enumeration", "forall w x : N, (w <= 128 -> x < 2 ^ w -> exists l, iter_submasks w x = Some l /\\ "
+                                 "(forall u, In u l <-> N.land u x = u) /\\ StronglySorted (fun a b => b < a) l /\\ NoDup l /\\ "
+                                 "hd 1 l = x /\\ last l 1 = 0)%N"),
+    ("c15_supermasks_enumeration", "forall w x : N, (w <= 128 -> x < 2 ^ w -> exists l, iter_supermasks w x = Some l /\\ "
+                                   "(forall u, In u l <-> (N.land u x = x /\\ u < 2 ^ w)) /\\ StronglySorted N.lt l /\\ NoDup l /\\ "
+                                   "hd 0 l = x /\\ last l 0 = 2 ^ w - 1)%N"),
+    ("c15_masks_terminate", "forall w x : N, (w <= 128 -> x < 2 ^ w -> iter_submasks w x <> None /\\ iter_supermasks w x <> None)%N"),
 ]
 RULE = ("masks: every u8 and i8 mask for both iterators (thorough: also every u16/i16 mask with at most 6 free bits and samples up "
         "to 10), structured and random masks of the 32/64/128-bit and pointer-sized types with at most 10 (thorough 12) free bits "
@@ -34,16 +48,17 @@ ASSUMPTIONS = ["a w-bit integer is modelled by its bit pattern (an N below 2^w);
 WIDTH = {"u8": 8, "i8": 8, "u16": 16, "i16": 16, "u32": 32, "i32": 32, "u64": 64, "i64": 64,
          "u128": 128, "i128": 128, "usize": 64, "isize": 64}
 WIDE = ["u32", "i32", "u64", "i64", "u128", "i128", "usize", "isize"]
-LIMIT = 6000
 
 
 # ----------------------------------------------------------------------------- executor / Coq printing
 def harness_line(c):
     op = c["op"]
     if op in ("sub", "sup"):
-        return "%s %s %d" % (op, c["ty"], c["x"])
-    if op in ("np", "ip"):
+        return "%s %s %d %d" % (op, c["ty"], c["x"], (1 << free_bits(c)) + 1)
+    if op == "np":
         return " ".join([op] + [str(v) for v in c["d"]])
+    if op == "ip":
+        return " ".join([op, str(math.factorial(len(c["d"])) + 1)] + [str(v) for v in c["d"]])
     return "%s %d %d %d %d" % (op, c["n"], c["m"], c["i"], c["j"])
 
 
@@ -72,10 +87,9 @@ def parse_ip(toks):
 def coq_term(c, obs, profile):
     t = obs.split()
     if not t or t[0] != "R":
-        # a panic is never a legal outcome for these iterators: print an observation no model output equals
-        t = ["R"]
-        if c["op"] == "np":
-            return "(CNext %s false [12345678901234567890])" % zl(c["d"])
+        # a panic is never a legal outcome for these iterators: print an observation that no model output / spec admits
+        bad = {"sub": "R 1 1", "sup": "R 0 0", "np": "R 1", "ip": "R", "n4": "R 0 0 0 0", "n4d": "R 0 0 0 0", "n8": "R 0 0 0 0"}
+        t = bad[c["op"]].split()
     op = c["op"]
     if op in ("sub", "sup"):
         return "(%s %d %d %s)" % ("CSub" if op == "sub" else "CSup", WIDTH[c["ty"]], c["x"], zl(t[1:]))
@@ -163,7 +177,7 @@ def gen_masks(rng, tier):
         for free in (0, 1, 1 << (w - 1), (1 << (w - 1)) | 1, 3 << (w - 2), (1 << (w - 1)) | (1 << (w // 2)) | (1 << (w // 2 - 1)) | 1):
             for op in ("sub", "sup"):
                 cases.append(mask_case(op, ty, free))
-    nw = 220 if tier == "quick" else 5000
+    nw = 400 if tier == "quick" else 5000
     for _ in range(nw):
         ty = rng.choice(WIDE)
         w = WIDTH[ty]
@@ -194,7 +208,7 @@ def gen_perms(rng, tier):
     for n in range(0, L + 1):
         for d in itertools.product((0, 1, 2), repeat=n):
             cases.append({"op": "np", "d": list(d)})
-            if n <= 5 or list(d) == sorted(d) or rng.chance(1, 6):
+            if n <= 3 or list(d) == sorted(d) or rng.chance(1, 8):   # the iterator sorts first: same output per multiset
                 cases.append({"op": "ip", "d": list(d)})
     D = 5 if tier == "quick" else 6
     for n in range(2, D + 1):
